@@ -2,6 +2,7 @@ package main
 
 import (
 	"fmt"
+	"time"
 	"os"
 	"path/filepath"
 	"strings"
@@ -93,6 +94,14 @@ func c13Judge(c *Ctx, cs *Case) {
 		}
 		return false
 	}
+	if cs.X != nil && cs.X["cli_only"] == "1" {
+		R = 0 // memory-hungry programs run only as separate processes
+		base = RunCLI(CLIOpts{Bin: c.Bin, Src: cs.Src, Stdin: cs.Stdin, Dir: c.Scratch, Timeout: 60 * time.Second})
+		if base.TimedOut {
+			c.Inconclusive("CLI watchdog")
+			return
+		}
+	}
 	for i := 0; i < R; i++ {
 		o := RunLib(cs.Src, RunOpts{MaxSteps: 500000, Stdin: cs.Stdin})
 		if CheckAbnormal(c, o) {
@@ -130,7 +139,7 @@ func c13Judge(c *Ctx, cs *Case) {
 	if cs.Mode == "cli" {
 		envs := [][]string{nil, {"TZ=Asia/Dhaka"}, {"GOMAXPROCS=1", "TZ=UTC"}, {"GOMAXPROCS=7", "PADDING=" + strings.Repeat("x", 4000)}, {"LANG=bn_BD.UTF-8", "GODEBUG=madvdontneed=1"}}
 		for i := 0; i < RP; i++ {
-			o := RunCLI(CLIOpts{Bin: c.Bin, Src: cs.Src, Stdin: cs.Stdin, Dir: c.Scratch, Env: envs[i%len(envs)], Name: fmt.Sprintf("prog%d.bn", i%3)})
+			o := RunCLI(CLIOpts{Bin: c.Bin, Src: cs.Src, Stdin: cs.Stdin, Dir: c.Scratch, Env: envs[i%len(envs)], Name: fmt.Sprintf("prog%d.bn", i%3), Timeout: 60 * time.Second})
 			if o.TimedOut {
 				c.Inconclusive("CLI watchdog")
 				return
@@ -301,6 +310,13 @@ func c13Run(c *Ctx) {
 		}
 		c13Judge(c, &Case{Gen: "map-order-sensitive", Src: src, X: map[string]string{"nontrivial": "1", "probe_order": strings.Join(once, ",")}})
 	}
+	// 2e. a program that keeps ~150 MB of distinct strings alive while producing short-lived garbage next to it
+	// (what the collector has or has not reclaimed at any moment must not show)
+	if c.Mine() {
+		big := Lines(Var("s", `"x"`), For(Var("d", "0"), "d < 20", "d = d + 1", "{ s = s + s; }"), Var("keep", "[]"), For(Var("i", "0"), "i < 150", "i = i + 1", "{ keep = "+BI("append", "keep", "s + i")+"; }"),
+			Var("seen", "0"), For(Var("j", "0"), "j < 1500", "j = j + 1", "{ "+Var("t", "s + j")+" "+If("j % 100 == 0", "{ "+Print(`"progress " + j`)+" }")+" seen = seen + 1; }"), Print("seen"), Print(BI("len", "keep")))
+		c13Judge(c, &Case{Gen: "memory-hungry", Mode: "cli", Src: big, X: map[string]string{"nontrivial": "1", "cli_only": "1"}})
+	}
 	// 2d. texts with several lexical / syntax errors on different lines: which diagnostic comes first
 	{
 		r = c.Rand("multi-error")
@@ -336,6 +352,20 @@ func c13Run(c *Ctx) {
 		for _, l := range pool {
 			if l.self && l.kind != "long" && l.kind != "empty" && l.kind != "declaration" {
 				selfs = append(selfs, l.text)
+			}
+		}
+		// lines that fail tens of thousands of calls deep, several times per session, between lines that call functions
+		for _, deep := range []string{
+			Fun("dp", "n", " "+If("n == 0", "{ "+Ret("nil.k")+" }")+" "+Ret("dp(n - 1)")+" ") + " dp(50000);",
+			Fun("ds", "n", " "+If("n == 0", "{ "+Ret("")+" }")+" "+Ret("n + ds(n - 1)")+" ") + " ds(45000);",
+			Fun("ok", "n", " "+If("n == 0", "{ "+Ret("0")+" }")+" "+Ret("1 + ok(n - 1)")+" ") + " ok(30000);",
+		} {
+			other := Fun("f", "a", " "+Ret("a + 1")+" ") + " f(1);"
+			if c.Mine() {
+				c13Judge(c, &Case{Gen: "repl-repetition", Mode: "repl", Src: strings.Join([]string{deep, other, deep, other, deep, deep, other, deep}, "\n"), X: map[string]string{"line": deep}})
+			}
+			if c.Mine() {
+				c13Judge(c, &Case{Gen: "repl-repetition", Mode: "repl", Src: strings.Join([]string{other, deep, deep, deep, other, deep, other}, "\n"), X: map[string]string{"line": other}})
 			}
 		}
 		r = c.Rand("repl")
